@@ -371,3 +371,25 @@ M("C03", "settings-map-function-table-native-order", F, _SM_CONV,
 M("C03", "settings-map-pointer-values-converted", F, "                elif setting.type == SettingsType.TYPE_INT:\n                    val = u32be(val)\n", "                else:\n                    val = u32be(val)\n", "C03.R12")
 M("C03", "settings-map-pretty-gets-signed", F, "            if pretty:\n                pretty_func = SETTING_TO_PRETTYFUNC.get(setting.index)\n",
   "            if pretty:\n                if setting.type == SettingsType.TYPE_INT:\n                    val = int.from_bytes(setting.value, \"big\", signed=True)\n                pretty_func = SETTING_TO_PRETTYFUNC.get(setting.index)\n", "C03.R12")
+
+# ------------------------------------------------------------------------------------------------ call style: positional -> keyword arguments
+# (library signatures are bound like package signatures: io.BytesIO(initial_bytes=..), int.from_bytes(bytes=.., byteorder=..),
+# x.split(sep=.., maxsplit=..), x.decode(encoding=.., errors=..) are the calls with the same values in the same parameters)
+_REC_HEAD = "    rsteps: List[Tuple[str, Union[int, bool]]] = []\n    p = io.BytesIO(program)\n"
+_TR_HEAD = "    tsteps: List[Tuple[str, Union[str, bytes, bool]]] = []\n    p = io.BytesIO(program)"
+T("C03", "twin-recover-stream-keyword", F, _REC_HEAD, _REC_HEAD.replace("io.BytesIO(program)", "io.BytesIO(initial_bytes=program)"))
+T("C03", "twin-transform-stream-keyword", F, _TR_HEAD, _TR_HEAD.replace("io.BytesIO(program)", "io.BytesIO(initial_bytes=program)"))
+T("C03", "twin-transform-from-bytes-keywords", F, "            btype = u32be(p.read(4))\n", "            btype = int.from_bytes(bytes=p.read(4), byteorder=\"big\")\n")
+T("C03", "twin-recover-unpack-keyword", F, "        step = u32be(d)\n        if step == TransformStep.APPEND:\n", "        step = u32be(data=d)\n        if step == TransformStep.APPEND:\n")
+T("C03", "twin-nul-cut-split-keywords", F, "    a, _, _ = data.partition(b\"\\x00\")\n    return a\n", "    return data.split(sep=b\"\\x00\", maxsplit=1)[0]\n")
+T("C03", "twin-pairs-split-keyword", F, "null_terminated_str(domains).split(\",\")", "null_terminated_str(domains).split(sep=\",\")")
+T("C03", "twin-frame-stream-keyword-from-bytes", F, "", "", edits=[
+    (F, "    p = io.BytesIO(data)\n    length = u16be(p.read(2))\n", "    p = io.BytesIO(initial_bytes=data)\n    length = int.from_bytes(bytes=p.read(2), byteorder=\"big\", signed=False)\n"),
+])
+M("C03", "recover-stream-keyword-skips-header", F, _REC_HEAD, _REC_HEAD.replace("io.BytesIO(program)", "io.BytesIO(initial_bytes=program[4:])"), "C03.R3")
+M("C03", "transform-from-bytes-keywords-little", F, "            btype = u32be(p.read(4))\n", "            btype = int.from_bytes(bytes=p.read(4), byteorder=\"little\")\n", "C03.R")
+M("C03", "frame-stream-keyword-prefix-little", F, "", "", "C03.R10", edits=[
+    (F, "    p = io.BytesIO(data)\n    length = u16be(p.read(2))\n", "    p = io.BytesIO(initial_bytes=data)\n    length = int.from_bytes(bytes=p.read(2), byteorder=\"little\")\n"),
+])
+M("C03", "nul-cut-rsplit-keywords", F, "    a, _, _ = data.partition(b\"\\x00\")\n    return a\n", "    return data.rsplit(sep=b\"\\x00\", maxsplit=1)[0]\n", "C03.R7")
+M("C03", "pairs-split-keyword-semicolon", F, "null_terminated_str(domains).split(\",\")", "null_terminated_str(domains).split(sep=\";\")", "C03.R8")
